@@ -83,31 +83,44 @@ def r81(rep: Report, ctx: Ctx) -> None:
              "end timestamps over every member already placed", 3)
     fi = ctx.func("sequence_groups_of_otel_events_asynchronously")
     defs = ctx.defs(fi)
-    # the decision: an `if` inside a `for` whose two arms append / extend
+    # the decision: inside a `for` over the ordered groups one statement
+    # appends the group as a new chain and another extends the current
+    # chain; the branch test that separates them (CFG control dependence, so
+    # if/else and guard clause + continue are the same decision)
     decision = None
+    cfg = ctx.cfg(fi)
     for loop in [n for n in ast.walk(fi.node) if isinstance(n, ast.For)]:
         if not isinstance(loop.target, ast.Name):
             continue
         lv = loop.target.id
+        new_st, ext_st = [], []
         for st in ast.walk(loop):
-            if isinstance(st, ast.If) and st.orelse:
-                arms = []
-                for arm in (st.body, st.orelse):
-                    names = {call_name(c) for s in arm for c in ast.walk(s)
-                             if isinstance(c, ast.Call)}
-                    aug = any(isinstance(s, ast.AugAssign) for s in arm)
-                    arms.append((names, aug))
-                kinds = []
-                for names, aug in arms:
-                    if "append" in names:
-                        kinds.append("new")
-                    elif "extend" in names or aug:
-                        kinds.append("extend")
-                if sorted(kinds) == ["extend", "new"]:
-                    decision = (loop, lv, st, kinds[0])
+            if isinstance(st, ast.Expr) and isinstance(st.value, ast.Call) \
+                    and isinstance(st.value.func, ast.Attribute):
+                c = st.value
+                if c.func.attr == "append" and len(c.args) == 1 and \
+                        isinstance(c.args[0], ast.Name) and c.args[0].id == lv:
+                    new_st.append(st)
+                elif c.func.attr == "extend" and len(c.args) == 1 and \
+                        isinstance(c.args[0], ast.Name) and c.args[0].id == lv:
+                    ext_st.append(st)
+            elif isinstance(st, ast.AugAssign) and isinstance(
+                    st.op, ast.Add) and isinstance(st.value, ast.Name) \
+                    and st.value.id == lv and isinstance(st.target,
+                                                         ast.Subscript):
+                ext_st.append(st)
+        if len(new_st) != 1 or len(ext_st) != 1:
+            continue
+        cn = cfg.controlling(cfg.node(new_st[0]))
+        ce = cfg.controlling(cfg.node(ext_st[0]))
+        for test, sense in cn:
+            if any(t2 is test and s2 != sense for t2, s2 in ce):
+                holder = ast.If(test=test, body=[], orelse=[])
+                ast.copy_location(holder, test)
+                decision = (loop, lv, holder, "new" if sense else "extend")
     if decision is None:
         raise AnalysisError(
-            f"{fi.qualname}: the chain decision (an if/else that appends a "
+            f"{fi.qualname}: the chain decision (a branch that appends a "
             "new chain or extends the current one inside the loop over the "
             "ordered groups) was not found")
     loop, lv, ifst, first_arm = decision
@@ -142,7 +155,7 @@ def r81(rep: Report, ctx: Ctx) -> None:
            detail=f"start side of the decision: '{unparse(start_e)}' "
                   f"(loop variable '{lv}' sorted by start, element 0)")
     # (b) the other side is a running maximum over all placed members
-    verdict, why = _running_max(defs, fi, loop, lv, other_o, other_e)
+    verdict, why = _running_max(defs, fi, loop, lv, other_o, other_e, cfg)
     rep.ob("R8.1", "end side is the running maximum of the chain", verdict,
            fi=fi, node=ifst, detail=why)
     # (c) direction: new chain iff max_end < next_start
@@ -171,7 +184,7 @@ class _MinAsMax(ast.AST):  # sentinel: never matches the max idiom
 
 
 def _running_max(defs: Defs, fi: FuncInfo, loop: ast.For, lv: str,
-                 orig: Optional[ast.AST], resolved: ast.AST
+                 orig: Optional[ast.AST], resolved: ast.AST, cfg=None
                  ) -> tuple[bool, str]:
     # alternative idiom: max over every member of the current chain
     coll = _aggregates_all_members(defs, resolved, "end_timestamp")
@@ -225,10 +238,20 @@ def _running_max(defs: Defs, fi: FuncInfo, loop: ast.For, lv: str,
                 f"initial value '{unparse(b.stmt)}' takes the end of a "
                 "single element of the first group, not its latest end")
     # the update must be executed on every iteration that places a group
-    for b in inside:
-        encl = enclosing(loop, b.stmt, (ast.If,))
-        if encl:
-            problems.append(f"update '{unparse(b.stmt)}' is conditional")
+    if cfg is not None and loop.body:
+        upd = {cfg.node(b.stmt) for b in inside if cfg.has(b.stmt)}
+        if not cfg.every_path_passes(cfg.node(loop.body[0]), cfg.node(loop),
+                                     upd):
+            problems.append(
+                f"'{name}' is not updated on every iteration: some path "
+                "through the loop body places a group and returns to the "
+                "loop header without the max-update (the chain's end stays "
+                "frozen, later overlapping siblings are put in sequence)")
+    else:
+        for b in inside:
+            encl = enclosing(loop, b.stmt, (ast.If,))
+            if encl:
+                problems.append(f"update '{unparse(b.stmt)}' is conditional")
     if problems:
         return False, "; ".join(problems)
     return True, (f"'{name}' is initialised from the first group's latest "
